@@ -273,6 +273,50 @@ def site_key(name, kind, ordinal):
     return f"{F.strip_generics(name) if not name.startswith('<') else name}|{kind}#{ordinal}"
 
 
+def state_invariant_holds(fx):
+    """Every type variable handed out by the type-checker state has an entry in BOTH of its maps (the value it stands for and
+    its inference set): each function of the state that takes a fresh variable from the source inserts that very variable into
+    both maps, unconditionally. Rows of class `state-invariant` are discharged only while this holds."""
+    ST = "tc::state::TypeCheckerState"
+    adt = fx.adt(ST)
+    if not adt:
+        return False, "the type-checker state type is gone"
+    maps = [f["name"] for f in adt["variants"][0]["fields"] if "HashMap<tc::state::type_variable::TypeVariable" in (f.get("ty") or "").replace(" ", "") or "HashMap<tc::state::type_variable::TypeVariable," in (f.get("ty") or "")]
+    maps = [f["name"] for f in adt["variants"][0]["fields"] if (f.get("ty") or "").replace(" ", "").startswith("std::collections::HashMap<tc::state::type_variable::TypeVariable,")]
+    if len(maps) < 2:
+        return False, f"expected the value map and the inference map keyed by type variable (found {maps})"
+    n_alloc = 0
+    for b in fx.fn_bodies():
+        if b.get("impl_self") != ST or not b.get("hir"):
+            continue
+        root = b["hir"]["value"]
+        for m, _ in F.walk(root):
+            if m.get("s") != "Let" or "init" not in m or m["pat"].get("p") != "Bind":
+                continue
+            init = F.strip(m["init"])
+            if not (init.get("k") == "MethodCall" and init["method"] == "fresh" and "TypeVariableSource" in (init.get("recv_ty") or "")):
+                continue
+            n_alloc += 1
+            tv = m["pat"]["local"]
+            filled = set()
+            for c, cps in F.calls(root):
+                if c.get("k") == "MethodCall" and c["method"] in ("entry", "insert") and c["args"] and F.local_of(F.strip(c["args"][0])) == tv:
+                    recv = F.strip(c["recv"])
+                    if recv.get("k") == "Field" and recv.get("field") in maps and not T_path_conditions(cps, c):
+                        filled.add(recv["field"])
+            if filled != set(maps):
+                return False, f"`{b['def']}` takes a fresh type variable but does not (unconditionally) enter it into {sorted(set(maps) - filled)}"
+    if n_alloc < 2:
+        return False, f"only {n_alloc} allocation site(s) of type variables found in the state (2 expected)"
+    return True, ""
+
+
+def T_path_conditions(ps, n):
+    from .. import terms as T
+
+    return T.path_conditions(ps, n) or [1 for a, _ in ps if isinstance(a, dict) and a.get("k") in ("If", "Match", "Loop", "Closure") and not a.get("exp") and "Desugar" not in str(a.get("source", ""))]
+
+
 def verify_seen_cut(fx, cg, comp):
     """A recursion whose cycles are cut by a set of already-seen items: `if seen.contains(&x) [&& pred(x)] { return .. }`
     followed by `seen.insert(x)`. Every recursive call must sit in a match arm on x whose variants pred() accepts."""
@@ -631,6 +675,12 @@ def check(fx, rep, tier):
                     continue
             if row is not None and row[1] == "len-guard":
                 rep.oblige(False, "R01.1", key, w, f"`{short}` in `{name}` is recorded as guarded by a length test, but no dominating test of the same container's length protects it any more: it panics for the missing case (e.g. an empty container)")
+                continue
+            if row is not None and row[1] == "state-invariant":
+                ok_inv, why_inv = state_invariant_holds(fx)
+                used_rows.add(key)
+                n_table += 1
+                rep.oblige(ok_inv, "R01.1", key, w, f"`{short}` in `{name}` relies on the state invariant 'every type variable has a value and an inference set', and that invariant no longer holds: {why_inv}", sample={"rule": "R01.1", "site": key, "class": "state-invariant (verified)"})
                 continue
             if row is not None and row[1].startswith("discharged-by:"):
                 dep = row[1].split(":", 1)[1]
